@@ -88,7 +88,10 @@ func genTrack(t *rapid.T) Track {
 	cur := float64(t0)
 	for i := 0; i < n; i++ {
 		if i > 0 {
-			inc := rapid.SampledFrom([]float64{0, 1, 1, 2, 0.5, 59, 60, 3599, 3600, 7200, 86399, 86400, 100000, 864000}).Draw(t, "inc")
+			inc := rapid.SampledFrom([]float64{0, 1, 1, 2, 0.5, 59, 60, 3599, 3600, 7200, 86399, 86400, 100000, 864000,
+				// the same day of the month / of the year again: a date header that looks at only
+				// part of the date sees no change
+				28 * 86400, 29 * 86400, 30 * 86400, 31 * 86400, 31*86400 + 5, 365 * 86400, 366 * 86400, 365*86400 - 3600, 36525 * 864}).Draw(t, "inc")
 			if cur+inc <= tMax {
 				cur += inc
 			}
